@@ -2,6 +2,7 @@ package tree
 
 import (
 	"fmt"
+	"slices"
 
 	schemaClient "github.com/sdcio/data-server/pkg/datastore/clients/schema"
 )
@@ -11,14 +12,17 @@ type TreeContext struct {
 	cacheClient  TreeCacheClient
 	schemaClient schemaClient.SchemaClientBound
 	actualOwner  string
+	// actualOwners all the owners that have been the actualOwner, e.g. all the intents of a transaction
+	actualOwners []string
 }
 
 func NewTreeContext(cc TreeCacheClient, sc schemaClient.SchemaClientBound, actualOwner string) *TreeContext {
-	return &TreeContext{
+	tc := &TreeContext{
 		cacheClient:  cc,
 		schemaClient: sc,
-		actualOwner:  actualOwner,
 	}
+	tc.SetActualOwner(actualOwner)
+	return tc
 }
 
 // deepCopy root is required to be set manually
@@ -44,6 +48,14 @@ func (t *TreeContext) GetActualOwner() string {
 	return t.actualOwner
 }
 
+// GetActualOwners returns all the owners that are acting on the tree, their stored content is being replaced.
+func (t *TreeContext) GetActualOwners() []string {
+	return t.actualOwners
+}
+
 func (t *TreeContext) SetActualOwner(owner string) {
 	t.actualOwner = owner
+	if owner != "" && !slices.Contains(t.actualOwners, owner) {
+		t.actualOwners = append(t.actualOwners, owner)
+	}
 }
